@@ -11,12 +11,5 @@ CONSTANTS
   MaxWrites = 2
   Variant = "late_binding"
   Export = FALSE
-INVARIANT ReadBack
-INVARIANT RequestedRatiosHonoured
-INVARIANT RequestedTracesHonoured
-INVARIANT SumsToOne
-INVARIANT NonNegative
-INVARIANT InvalidIffRequestedExceedsOne
-INVARIANT EvalIsFunctional
-INVARIANT FitsInv
 CHECK_DEADLOCK FALSE
+INVARIANT RequestedRatiosHonoured
